@@ -514,10 +514,46 @@ static arr_real make_window(int kind, int n, bool sym) {
 }
 static const char* WN[] = {"hann", "hamming", "blackman", "cosine", "kaiser", "rect"};
 
+// two round trips with the same framing and the same window OBJECT whose coefficients are replaced in place in between
+// (Hann, then Hamming, both COLA at 50 % overlap): nothing derived from the first window may survive
+static void stft_refill(Json& js, vh::Rng& rng) {
+    static const int NF2[] = {8, 16, 32, 64, 128};
+    const int nfft = NF2[rng.range(0, 4)], ov = nfft / 2, hop = nfft - ov;
+    const int nx = ov + (int)rng.range(2, 6) * hop;
+    arr_real x(nx);
+    for (int i = 0; i < nx; ++i) {
+        x[i] = rng.gauss();
+    }
+    arr_real w = window::hann(nfft, false);
+    const arr_real ham = window::hamming(nfft, false);
+    for (int meth = 0; meth < 2; ++meth) {
+        const OverlapMethod om = meth ? OverlapMethod::Wola : OverlapMethod::Ola;
+        double worst = 0;
+        for (int pass = 0; pass < 2; ++pass) {
+            if (pass == 1) {
+                for (int i = 0; i < nfft; ++i) {
+                    w[i] = ham[i];   // same buffer, new coefficients
+                }
+            }
+            if (!iscola(w, ov, om)) {
+                continue;
+            }
+            const auto Y = stft(x, w, ov, nfft);
+            const arr_real xr = istft(Y, w, ov, nfft, StftRange::Onesided, om);
+            for (int i = 1; i < std::min(nx, xr.size()); ++i) {   // sample 0 has zero weight under the periodic Hann
+                worst = std::max(worst, std::fabs(xr[i] - x[i]));
+            }
+        }
+        js.begin("Resid").str("clause", "C02.stft-window-refilled").str("api", "istft").num("n", nfft).num("n2", meth).str("cls", "gauss")
+          .num("outlen", nx).num("err_milli", milli(worst, 1e-9)).end();
+    }
+}
+
 static void run_stft(Json& js, vh::Rng& rng, long budget) {
     static const int NF[] = {8, 12, 16, 20, 32, 64, 100, 128, 256, 512, 1024};
     long done = 0;
     while (done < budget) {
+        stft_refill(js, rng);
         const int nfft = NF[rng.range(0, 10)];
         const int wk = (int)rng.range(0, 5);
         const bool sym = rng.coin();
